@@ -188,6 +188,9 @@ func runCheck(repo, verif, prop, tier, keep string, claim bool) int {
 				key = k
 			}
 		}
+		if key == "" && strings.Contains(short, ".@") && len(keys) == 1 {
+			key = keys[0]
+		}
 		if key == "" {
 			runs[i].missing = true
 			continue
